@@ -21,6 +21,7 @@ def st(t): return {"type": "set", "set": {"itemType": t}}
 def mp(k, v): return {"type": "map", "map": {"keyType": k, "valueType": v}}
 def ref(n): return {"type": "reference", "reference": {"name": n, "package": PKG}}
 def tn(n): return {"name": n, "package": PKG}
+def ext(fallback): return {"type": "external", "external": {"externalReference": {"name": "Foreign", "package": "com.other.lib"}, "fallback": fallback}}
 
 types = []
 def alias(name, t, safety=None):
@@ -49,6 +50,10 @@ alias("OptAliasAlias", ref("OptIntAlias"))
 alias("ListStrAlias", lst(STRING))
 alias("SetIntAlias", st(INTEGER))
 alias("OptNodeAlias", opt(ref("Node")))
+alias("MapStrAlias", mp(STRING, STRING))
+alias("MapAliasAlias", ref("MapStrAlias"))
+alias("SetStrAlias", st(STRING))
+alias("ColorMapAlias", mp(STRING, ref("Color")))
 obj("Empty", [])
 obj("Leaf", [
     ("d", DOUBLE), ("od", opt(DOUBLE)), ("b", BINARY), ("s", STRING), ("i", INTEGER),
@@ -69,6 +74,7 @@ obj("Node", [
     ("alias", opt(ref("StrAlias"))), ("keys", opt(ref("Keys"))), ("color", opt(ref("Color"))),
     ("leaves", lst(opt(ref("Leaf")))), ("type", opt(INTEGER)),
 ])
+obj("Grants", [("byUser", mp(STRING, ref("Color"))), ("level", ref("Color")), ("tags", st(ref("Color")))])
 union("Choice", [
     ("leaf", ref("Leaf")), ("node", ref("Node")), ("text", STRING), ("num", DOUBLE),
     ("many", lst(ref("Leaf"))), ("maybe", opt(ref("Leaf"))), ("empty", ref("Empty")),
@@ -149,6 +155,14 @@ service("SafetyService", [
     ], auth="header"),
     ep("safeBody", "POST", "/s/body/safe", [arg("body", STRING, "body", safety="SAFE"),
                                             arg("q", opt(STRING), "query")]),
+    ep("mapKeys", "POST", "/s/map/keys", [arg("grants", mp(STRING, ref("Color")), "body")]),
+    ep("tokenKeys", "POST", "/s/map/tokens", [arg("grants", mp(BEARERTOKEN, ref("Color")), "body")]),
+    ep("aliasKeys", "POST", "/s/map/aliases", [arg("grants", mp(ref("StrAlias"), ref("SafeStrAlias")), "body")]),
+    ep("grantsObject", "POST", "/s/map/object", [arg("grants", ref("Grants"), "body")]),
+    ep("listOfMaps", "POST", "/s/map/list", [arg("grants", lst(mp(STRING, ref("Color"))), "body"),
+                                             arg("colors", st(ref("Color")), "query")]),
+    ep("mapAliasBody", "POST", "/s/map/alias", [arg("grants", ref("ColorMapAlias"), "body")]),
+    ep("safeMap", "POST", "/s/map/safe", [arg("grants", mp(ref("SafeStrAlias"), ref("Color")), "body")]),
     ep("unsafeBody", "POST", "/s/body/unsafe/{safeP}", [arg("safeP", INTEGER, "path", safety="SAFE"),
                                                         arg("body", ref("Leaf"), "body")], auth="cookie-tok"),
 ])
@@ -198,6 +212,12 @@ service("ReturnService", [
     ep("retSet", "GET", "/r/set", returns=st(STRING)),
     ep("retMap", "GET", "/r/map", returns=mp(STRING, ref("Leaf"))),
     ep("retMapDoubleKey", "GET", "/r/mapDoubleKey", returns=mp(DOUBLE, STRING)),
+    ep("retMapAlias", "GET", "/r/mapAlias", returns=ref("MapStrAlias")),
+    ep("retMapAliasAlias", "GET", "/r/mapAliasAlias", returns=ref("MapAliasAlias")),
+    ep("retSetAlias", "GET", "/r/setAlias", returns=ref("SetStrAlias")),
+    ep("retOptAliasAlias", "GET", "/r/optAliasAlias", returns=ref("OptAliasAlias")),
+    ep("retExtMap", "GET", "/r/extMap", [arg("q", ext(STRING), "query")], returns=ext(mp(STRING, INTEGER))),
+    ep("retExtOpt", "GET", "/r/extOpt", returns=ext(opt(STRING))),
     ep("retBinary", "GET", "/r/binary", returns=BINARY),
     ep("retOptBinary", "GET", "/r/optBinary", returns=opt(BINARY)),
     ep("retBinaryAlias", "GET", "/r/binaryAlias", returns=ref("BinaryAlias")),
@@ -228,6 +248,7 @@ PRIM_RUST = {"STRING": "String", "INTEGER": "i32", "DOUBLE": "f64", "SAFELONG": 
 COPY_PRIMS = {"INTEGER", "DOUBLE", "SAFELONG", "BOOLEAN", "UUID", "DATETIME"}
 
 def dealias(t):
+    while t["type"] == "external": t = t["external"]["fallback"]
     while t["type"] == "reference":
         k, d = TYPEDEFS[t["reference"]["name"]]
         if k != "alias": break
@@ -246,6 +267,7 @@ def is_copy(t):
     if k == "reference":
         kk, d = TYPEDEFS[t["reference"]["name"]]
         return kk == "alias" and is_copy(d["alias"])
+    if k == "external": return is_copy(t["external"]["fallback"])
     return False
 
 def rust_type(t, key=False):
@@ -258,6 +280,7 @@ def rust_type(t, key=False):
     if k == "set": return "std::collections::BTreeSet<%s>" % rust_type(t["set"]["itemType"], True)
     if k == "map": return "std::collections::BTreeMap<%s, %s>" % (rust_type(t["map"]["keyType"], True), rust_type(t["map"]["valueType"]))
     if k == "reference": return "sim_ir::" + t["reference"]["name"]
+    if k == "external": return rust_type(t["external"]["fallback"], key)
     raise Exception(k)
 
 def borrow(v, t):
@@ -278,6 +301,7 @@ def borrow(v, t):
         if kk == "alias":
             return ("%s.clone()" % v) if is_copy(d["alias"]) else ("&%s" % v)
         return "&%s" % v
+    if k == "external": return borrow(v, t["external"]["fallback"])
     raise Exception(k)
 
 def upper_camel(s): return s[0].upper() + s[1:]
